@@ -503,8 +503,8 @@ func coord() int {
 			return 2
 		}
 		rf := replayFile{Property: "C01", World: "treerace", Seed: *fSeed, RunIndex: idx, Signature: sig, Message: msg}
-		os.MkdirAll(filepath.Join(*fRoot, "replays"), 0o755)
-		path := filepath.Join(*fRoot, "replays", fmt.Sprintf("C01-%s-%d-%d.json", strings.ReplaceAll(sig, "/", "_"), *fSeed, idx))
+		os.MkdirAll(replayDir(*fRoot), 0o755)
+		path := filepath.Join(replayDir(*fRoot), fmt.Sprintf("C01-%s-%d-%d.json", strings.ReplaceAll(sig, "/", "_"), *fSeed, idx))
 		b, _ := json.MarshalIndent(rf, "", " ")
 		os.WriteFile(path, b, 0o644)
 		if exit == 0 {
@@ -540,4 +540,13 @@ func replay() int {
 	}
 	fmt.Println("NOT REPRODUCED")
 	return 0
+}
+
+// replayDir is where replay files go: <root>/replays, or $VERIF_REPLAY_DIR when set (scratch runs
+// against changed trees - several of them may be going on at once - keep their replay files apart).
+func replayDir(root string) string {
+	if d := os.Getenv("VERIF_REPLAY_DIR"); d != "" {
+		return d
+	}
+	return filepath.Join(root, "replays")
 }
